@@ -20,7 +20,6 @@ Proof. intros H a Ha. rewrite forallb_forall in H. apply H, in_ids, Ha. Qed.
 Definition id_facts (a : Z) : bool :=
   (month_id (month_end a) =? a) && (month_id (month_start a) =? a)
   && is_month_end (month_end a) && is_month_start (month_start a)
-  && negb (is_month_end (month_start a) && false)
   && (month_start a <=? month_end a)
   && (month_end a + 1 =? month_start (a + 1))
   && (month_id (month_start a - 1) =? a - 1)
